@@ -83,6 +83,25 @@ Theorem C04_verdict_iff_failures : forall t failable answer evs bs, (0 <= failab
 Proof. exact c04_verdict_iff_failures. Qed.
 Print Assumptions C04_verdict_iff_failures.
 
+(* the same with the decision spelled out, for finite values of any kind (real, complex, arrays of any shape):
+   sample_miss t (e :: _, s) = (tol_sq t e < ||e - s||^2)  where tol_sq is t^2 resp. (p/100)^2 * ||e||^2, and
+   misses t evs = the number of such samples.  tol_neg t = false says t >= 0 resp. p >= 0. *)
+Theorem C04_verdict_general : forall t failable answer evs, tol_neg t = false -> (0 <= failable)%Z ->
+  Forall finite_sample evs ->
+  gen_raw_check t failable answer evs =
+    Some (if enough (zlen evs) (misses t evs) failable then answer else fail_entry answer).
+Proof. exact c04_verdict_general. Qed.
+Print Assumptions C04_verdict_general.
+
+(* the hypothesis of C04_verdict_iff_failures is satisfiable for every list of well-shaped samples (same shape, or
+   two numbers one of which may be infinite): the outcome list exists and the verdict follows *)
+Theorem C04_verdict_total : forall t failable answer evs, (0 <= failable)%Z -> Forall well_shaped evs ->
+  exists bs, sample_oks (fun x y => gen_within x y t) evs = Some bs /\ length bs = length evs /\
+    gen_raw_check t failable answer evs =
+      Some (if enough (zlen evs) (nfail bs) failable then answer else fail_entry answer).
+Proof. exact c04_verdict_total. Qed.
+Print Assumptions C04_verdict_total.
+
 (* end to end for real scalar samples (expected, student), with the decision spelled out:
    misses_abs t l = #{ (e, s) in l : |e - s| > t },  misses_pct p l = #{ (e, s) in l : |e - s| > p/100 * |e| } *)
 Theorem C04_verdict_absolute_real : forall t failable answer (l : list (Q * Q)), 0 <= t -> (0 <= failable)%Z ->
